@@ -873,6 +873,15 @@ def subchecks(tier, seed):
                     "constraints": "None | 'center'", "extrapolation": EXTRAP,
                     "follow-up vectors (state re-use)": "the recorded knots followed by the k/8 grid (explicit knots) or 13 "
                                                         "dyadic points (df) in -1..5 plus a null"}),
+    ] + ([
+        Sub("bs-df-seed-slice", drv_bs, {"mode": "df", "degrees": [degs[seed % 6]], "bounds": [(narrow, 3), (both, 3)],
+                                         "followup": COARSE},
+            shard_depth=4,
+            bounds={"note": "VERIF_SEED-selected exhaustive slice of the thorough scope (one degree, out-of-range training "
+                            "values with explicit bounds)", "degree": degs[seed % 6],
+                    "x and bounds": ["explicit bounds 1/2..3 and 0..4: x = sorted multisets of 2..3 symbols of "
+                                     "{-1,0,1/2,1,3/2,2,3,4,5,null}"], "df": "degree..degree+3"}),
+    ] if quick else []) + [
         Sub("formula-path", drv_formula, {"max_len": fl_len}, shard_depth=2,
             bounds={"terms": ["%s(x, %s)" % (a, ", ".join("%s=%r" % kv for kv in k.items())) for a, k in FORMULA_TERMS],
                     "extrapolation": EXTRAP, "x": "sorted multisets of 2..%d grid symbols" % fl_len,
